@@ -1,8 +1,513 @@
 import Gv.Model.SW
 import Gv.Spec.SW
-namespace Gv.Props.C09
-open Gv Gv.Model.SW
+/-!
+# C09 — pairwise local alignment is valid, self-consistent and optimal
 
-theorem placeholder : (1 : Nat) = 1 := rfl
+Property theorems about `Gv.Model.SW` (model of `align/aligner.go`) and `Gv.Spec.SW` (independent
+meaning).  All statements are for **all** inputs (induction; no bound on lengths or scores).
+-/
+namespace Gv.Props.C09
+open Gv Gv.Model Gv.Model.SW
+
+/-! ## validity of the trace-back, for any score / trace matrix -/
+
+/-- what the loop of `backTrack_SW` maintains: the slices built so far spell `s1[pi .. e1)` and
+`s2[pj .. e2)` (`e = end + 1`), have equal length and no all-gap column, and the counters add up -/
+structure Inv (s1 s2 : Seq) (e1 e2 pi pj : Nat) (st : BT) : Prop where
+  lenEq : st.r1.length = st.r2.length
+  lenRep : st.len = st.r1.length
+  noGapCol : ∀ p ∈ st.r1.zip st.r2, ¬ (p.1 = GAP ∧ p.2 = GAP)
+  row1 : ungap st.r1 = (s1.take e1).drop pi
+  row2 : ungap st.r2 = (s2.take e2).drop pj
+  counts : st.nm + st.nmm + st.ng = st.len
+  le1 : pi ≤ e1
+  le2 : pj ≤ e2
+
+private theorem drop_pred {s : Seq} {e p : Nat} (hp : 0 < p) (hpe : p ≤ e) (he : e ≤ s.length) :
+    (s.take e).drop (p - 1) = s.getD (p - 1) 0 :: (s.take e).drop p := by
+  have hlt : p - 1 < (s.take e).length := by simp [List.length_take]; omega
+  rw [List.drop_eq_getElem_cons hlt]
+  have : p - 1 + 1 = p := by omega
+  rw [this]
+  congr 1
+  have h2 : p - 1 < s.length := by omega
+  simp [List.getElem_take, List.getD_eq_getElem?_getD, List.getElem?_eq_getElem h2]
+
+private theorem getD_mem {s : Seq} {i : Nat} (h : i < s.length) : s.getD i 0 ∈ s := by
+  simp [List.getD_eq_getElem?_getD, List.getElem?_eq_getElem h]
+
+private theorem getD_ne_gap {s : Seq} (hs : GAP ∉ s) {i : Nat} (h : i < s.length) : s.getD i 0 ≠ GAP := by
+  intro e; exact hs (e ▸ getD_mem h)
+
+private theorem ungap_cons_ne {c : Byte} (h : c ≠ GAP) (r : Seq) : ungap (c :: r) = c :: ungap r := by
+  simp [ungap, h]
+
+private theorem ungap_cons_gap (r : Seq) : ungap (GAP :: r) = ungap r := by
+  simp [ungap]
+
+section
+variable {s1 s2 : Seq} {e1 e2 : Nat}
+variable (h1 : GAP ∉ s1) (h2 : GAP ∉ s2) (he1 : e1 ≤ s1.length) (he2 : e2 ≤ s2.length)
+
+include h1 h2 he1 he2 in
+private theorem inv_pushDiag {pi pj : Nat} {st : BT} (hi : 0 < pi) (hj : 0 < pj)
+    (inv : Inv s1 s2 e1 e2 pi pj st) :
+    Inv s1 s2 e1 e2 (pi - 1) (pj - 1) (st.pushDiag (s1.getD (pi - 1) 0) (s2.getD (pj - 1) 0)) := by
+  have hc1 : s1.getD (pi - 1) 0 ≠ GAP := getD_ne_gap h1 (by have := inv.le1; omega)
+  have hc2 : s2.getD (pj - 1) 0 ≠ GAP := getD_ne_gap h2 (by have := inv.le2; omega)
+  refine ⟨?_, ?_, ?_, ?_, ?_, ?_, ?_, ?_⟩
+  · simp [BT.pushDiag, inv.lenEq]
+  · simp [BT.pushDiag, inv.lenRep]
+  · intro p hp
+    simp only [BT.pushDiag, List.zip_cons_cons, List.mem_cons] at hp
+    rcases hp with rfl | hp
+    · exact fun h => hc1 h.1
+    · exact inv.noGapCol p hp
+  · simp only [BT.pushDiag]
+    rw [ungap_cons_ne hc1, inv.row1, drop_pred hi inv.le1 he1]
+  · simp only [BT.pushDiag]
+    rw [ungap_cons_ne hc2, inv.row2, drop_pred hj inv.le2 he2]
+  · have := inv.counts
+    simp only [BT.pushDiag]
+    split <;> omega
+  · have := inv.le1; omega
+  · have := inv.le2; omega
+
+include h1 he1 in
+private theorem inv_pushUp (pj : Nat) : ∀ (k i : Nat) (st : BT), k ≤ i + 1 →
+    Inv s1 s2 e1 e2 (i + 1) pj st → Inv s1 s2 e1 e2 (i + 1 - k) pj (BT.pushUp s1 k i st) := by
+  intro k
+  induction k with
+  | zero => intro i st _ inv; simpa [BT.pushUp] using inv
+  | succ k ih =>
+    intro i st hk inv
+    have hc : s1.getD i 0 ≠ GAP := getD_ne_gap h1 (by have := inv.le1; omega)
+    have step : Inv s1 s2 e1 e2 i pj
+        { st with r1 := s1.getD i 0 :: st.r1, r2 := GAP :: st.r2, len := st.len + 1, ng := st.ng + 1 } := by
+      refine ⟨?_, ?_, ?_, ?_, ?_, ?_, ?_, inv.le2⟩
+      · simp [inv.lenEq]
+      · simp [inv.lenRep]
+      · intro p hp
+        simp only [List.zip_cons_cons, List.mem_cons] at hp
+        rcases hp with rfl | hp
+        · exact fun h => hc h.1
+        · exact inv.noGapCol p hp
+      · have := drop_pred (s := s1) (e := e1) (p := i + 1) (by omega) inv.le1 he1
+        simp only [Nat.add_sub_cancel] at this
+        show ungap (s1.getD i 0 :: st.r1) = _
+        rw [ungap_cons_ne hc, inv.row1, this]
+      · show ungap (GAP :: st.r2) = _
+        rw [ungap_cons_gap, inv.row2]
+      · have := inv.counts; show st.nm + st.nmm + (st.ng + 1) = st.len + 1; omega
+      · have := inv.le1; omega
+    simp only [BT.pushUp]
+    cases i with
+    | zero =>
+      have : k = 0 := by omega
+      subst this
+      simpa [BT.pushUp] using step
+    | succ i =>
+      have := ih i _ (by omega) (by simpa using step)
+      simpa [Nat.succ_sub_succ] using this
+
+include h2 he2 in
+private theorem inv_pushLeft (pi : Nat) : ∀ (k j : Nat) (st : BT), k ≤ j + 1 →
+    Inv s1 s2 e1 e2 pi (j + 1) st → Inv s1 s2 e1 e2 pi (j + 1 - k) (BT.pushLeft s2 k j st) := by
+  intro k
+  induction k with
+  | zero => intro j st _ inv; simpa [BT.pushLeft] using inv
+  | succ k ih =>
+    intro j st hk inv
+    have hc : s2.getD j 0 ≠ GAP := getD_ne_gap h2 (by have := inv.le2; omega)
+    have step : Inv s1 s2 e1 e2 pi j
+        { st with r1 := GAP :: st.r1, r2 := s2.getD j 0 :: st.r2, len := st.len + 1, ng := st.ng + 1 } := by
+      refine ⟨?_, ?_, ?_, ?_, ?_, ?_, inv.le1, ?_⟩
+      · simp [inv.lenEq]
+      · simp [inv.lenRep]
+      · intro p hp
+        simp only [List.zip_cons_cons, List.mem_cons] at hp
+        rcases hp with rfl | hp
+        · exact fun h => hc h.2
+        · exact inv.noGapCol p hp
+      · show ungap (GAP :: st.r1) = _
+        rw [ungap_cons_gap, inv.row1]
+      · have := drop_pred (s := s2) (e := e2) (p := j + 1) (by omega) inv.le2 he2
+        simp only [Nat.add_sub_cancel] at this
+        show ungap (s2.getD j 0 :: st.r2) = _
+        rw [ungap_cons_ne hc, inv.row2, this]
+      · have := inv.counts; show st.nm + st.nmm + (st.ng + 1) = st.len + 1; omega
+      · have := inv.le2; omega
+    simp only [BT.pushLeft]
+    cases j with
+    | zero =>
+      have : k = 0 := by omega
+      subst this
+      simpa [BT.pushLeft] using step
+    | succ j =>
+      have := ih j _ (by omega) (by simpa using step)
+      simpa [Nat.succ_sub_succ] using this
+
+/-- the gap-length loop returns a length between 1 and `i` (it cannot run past row / column 0) -/
+theorem gapLen_bounds (val : Nat → Int) (target gopen gext : Int) (i : Nat) :
+    ∀ (f k : Nat), 1 ≤ k → k ≤ i → i ≤ f + k →
+      k ≤ gapLen val target gopen gext i f k ∧ gapLen val target gopen gext i f k ≤ i := by
+  intro f
+  induction f with
+  | zero => intro k _ hki hf; simp only [gapLen]; omega
+  | succ f ih =>
+    intro k hk hki hf
+    simp only [gapLen]
+    split
+    · omega
+    · rename_i hc
+      have hne : ¬ (i - k = 0) := by
+        intro h0; apply hc; simp [h0]
+      have := ih (k + 1) (by omega) (by omega) (by omega)
+      omega
+
+include h1 h2 he1 he2 in
+private theorem inv_btStep (gopen gext : Int) (m : Nat → Nat → Int) (tr : Nat → Nat → Dir)
+    {pi pj : Nat} {st : BT} (hi : 0 < pi) (hj : 0 < pj) (inv : Inv s1 s2 e1 e2 pi pj st)
+    {pi' pj' : Nat} {st' : BT} (h : btStep gopen gext m tr s1 s2 pi pj st = some (pi', pj', st')) :
+    Inv s1 s2 e1 e2 pi' pj' st' ∧ pi' + pj' < pi + pj := by
+  simp only [btStep] at h
+  split at h
+  · -- diag
+    simp only [Option.some.injEq, Prod.mk.injEq] at h
+    obtain ⟨rfl, rfl, rfl⟩ := h
+    exact ⟨inv_pushDiag h1 h2 he1 he2 hi hj inv, by omega⟩
+  · -- up
+    split at h
+    · simp at h
+    · rename_i hne
+      simp only [Option.some.injEq, Prod.mk.injEq] at h
+      obtain ⟨rfl, rfl, rfl⟩ := h
+      have hb := gapLen_bounds (fun r => m r (pj - 1)) (m (pi - 1) (pj - 1)) gopen gext (pi - 1)
+        (pi - 1) 1 (by omega) (by omega) (by omega)
+      have hpi : pi = (pi - 1) + 1 := by omega
+      have inv' : Inv s1 s2 e1 e2 ((pi - 1) + 1) pj st := by rw [← hpi]; exact inv
+      have := inv_pushUp h1 he1 pj _ (pi - 1) st (Nat.le_succ_of_le hb.2) inv'
+      rw [← hpi] at this
+      exact ⟨this, by omega⟩
+  · -- left
+    split at h
+    · simp at h
+    · rename_i hne
+      simp only [Option.some.injEq, Prod.mk.injEq] at h
+      obtain ⟨rfl, rfl, rfl⟩ := h
+      have hb := gapLen_bounds (fun c => m (pi - 1) c) (m (pi - 1) (pj - 1)) gopen gext (pj - 1)
+        (pj - 1) 1 (by omega) (by omega) (by omega)
+      have hpj : pj = (pj - 1) + 1 := by omega
+      have inv' : Inv s1 s2 e1 e2 pi ((pj - 1) + 1) st := by rw [← hpj]; exact inv
+      have := inv_pushLeft h2 he2 pi _ (pj - 1) st (Nat.le_succ_of_le hb.2) inv'
+      rw [← hpj] at this
+      exact ⟨this, by omega⟩
+
+include h1 h2 he1 he2 in
+private theorem inv_btLoop (fixed : Bool) (gopen gext : Int) (m : Nat → Nat → Int) (tr : Nat → Nat → Dir) :
+    ∀ (f pi pj : Nat) (st : BT), Inv s1 s2 e1 e2 pi pj st →
+      ∀ {pi' pj' : Nat} {st' : BT}, btLoop fixed gopen gext m tr s1 s2 f pi pj st = some (pi', pj', st') →
+        Inv s1 s2 e1 e2 pi' pj' st' := by
+  intro f
+  induction f with
+  | zero =>
+    intro pi pj st inv pi' pj' st' h
+    simp only [btLoop, Option.some.injEq, Prod.mk.injEq] at h
+    obtain ⟨rfl, rfl, rfl⟩ := h; exact inv
+  | succ f ih =>
+    intro pi pj st inv pi' pj' st' h
+    simp only [btLoop] at h
+    split at h
+    · simp only [Option.some.injEq, Prod.mk.injEq] at h
+      obtain ⟨rfl, rfl, rfl⟩ := h; exact inv
+    · rename_i hz
+      split at h
+      · simp at h
+      · rename_i a b c hstep
+        have hs := inv_btStep h1 h2 he1 he2 gopen gext m tr (by omega) (by omega) inv hstep
+        split at h
+        · simp only [Option.some.injEq, Prod.mk.injEq] at h
+          obtain ⟨rfl, rfl, rfl⟩ := h; exact hs.1
+        · exact ih _ _ _ hs.1 h
+
+end
+
+/-- the validity part of C09 for one result: two gapped rows of equal length (the reported length),
+no all-gap column, ungapped contents exactly `s1[start1 .. end1]` and `s2[start2 .. end2]`
+(inclusive ends, inside the sequences), and the three counters add up to the length -/
+structure Valid (s1 s2 : Seq) (r : Result) : Prop where
+  rows_length : r.row1.length = r.row2.length
+  length_eq : r.length = r.row1.length
+  no_all_gap : ∀ p ∈ r.row1.zip r.row2, ¬ (p.1 = GAP ∧ p.2 = GAP)
+  bounds1 : r.start1 ≤ r.end1 + 1 ∧ r.end1 < s1.length
+  bounds2 : r.start2 ≤ r.end2 + 1 ∧ r.end2 < s2.length
+  row1 : ungap r.row1 = (s1.drop r.start1).take (r.end1 + 1 - r.start1)
+  row2 : ungap r.row2 = (s2.drop r.start2).take (r.end2 + 1 - r.start2)
+  counts : r.nmatch + r.nmismatch + r.ngaps = r.length
+
+/-- **sw_valid** — for *any* score matrix `m`, *any* trace matrix `tr`, any end cell inside the
+matrix and either stop rule, whatever `backTrack_SW` returns is valid.  (`none` = the Go code
+panics, which needs an `UP` in row 0 or a `LEFT` in column 0.)  Gap characters are excluded from
+the inputs because `seqToindices` rejects them (`sw_align_valid`). -/
+theorem sw_valid (fixed : Bool) (gopen gext : Int) (m : Nat → Nat → Int) (tr : Nat → Nat → Dir)
+    (s1 s2 : Seq) (score : Int) (maxi maxj : Nat) (r : Result)
+    (h1 : GAP ∉ s1) (h2 : GAP ∉ s2) (hi : maxi < s1.length) (hj : maxj < s2.length)
+    (h : backTrack fixed gopen gext m tr s1 s2 score maxi maxj = some r) : Valid s1 s2 r := by
+  simp only [backTrack] at h
+  split at h
+  · simp at h
+  · rename_i pi pj st hloop
+    have inv0 : Inv s1 s2 (maxi + 1) (maxj + 1) (maxi + 1) (maxj + 1) {} := by
+      refine ⟨rfl, rfl, by simp, ?_, ?_, rfl, Nat.le_refl _, Nat.le_refl _⟩
+      · simp [ungap]
+      · simp [ungap]
+    have inv := inv_btLoop h1 h2 (by omega : maxi + 1 ≤ s1.length) (by omega : maxj + 1 ≤ s2.length)
+      fixed gopen gext m tr _ _ _ _ inv0 hloop
+    simp only [Option.some.injEq] at h
+    subst h
+    exact ⟨inv.lenEq, inv.lenRep, inv.noGapCol, ⟨inv.le1, hi⟩, ⟨inv.le2, hj⟩,
+      by simpa [List.drop_take] using inv.row1, by simpa [List.drop_take] using inv.row2, inv.counts⟩
+
+/-- hypotheses of `sw_valid` are satisfiable, and the conclusion is not vacuous: a hand-made
+trace matrix (`UP` then `DIAG`) on `ACG` / `AG`, end cell (2,1) -/
+example :
+    backTrack false (-4) (-2) (fun _ _ => 1) (fun i _ => if i = 1 then Dir.up else Dir.diag)
+      [65, 67, 71] [65, 71] 7 2 1
+    = some { score := 7, start1 := 0, start2 := 0, end1 := 2, end2 := 1, length := 3,
+             nmatch := 2, nmismatch := 0, ngaps := 1, row1 := [65, 67, 71], row2 := [65, 45, 71] } := by
+  decide
+
+/-! ## the whole call: constructor, setters, `Alignment()` -/
+
+/-- (table fact, re-checked against `align/const.go` on every run) neither index map has an entry
+for the gap character, so `seqToindices` rejects gapped input -/
+theorem gap_not_in_index_maps :
+    lookup (toUpper GAP) Gen.dna_to_matrix_pos = none ∧ lookup (toUpper GAP) Gen.prot_to_matrix_pos = none := by
+  decide
+
+/-- (table fact) every position of an index map addresses a row and a column of its matrix, so
+`matchScore` never indexes out of range -/
+theorem index_maps_in_range :
+    (∀ p ∈ Gen.dna_to_matrix_pos, p.2 < Gen.dnafull_subst_matrix.length ∧
+        ∀ row ∈ Gen.dnafull_subst_matrix, p.2 < row.length) ∧
+    (∀ p ∈ Gen.prot_to_matrix_pos, p.2 < Gen.blosum62_subst_matrix.length ∧
+        ∀ row ∈ Gen.blosum62_subst_matrix, p.2 < row.length) := by
+  decide
+
+/-- the index map of a configured aligner is one of the two built-in maps or absent -/
+private theorem configure_chartopos (den : Int) (s1 s2 : Seq) (go ge : Option Int) (mm : Option (Int × Int)) :
+    (configure den s1 s2 go ge mm).chartopos = some Gen.dna_to_matrix_pos ∨
+    (configure den s1 s2 go ge mm).chartopos = some Gen.prot_to_matrix_pos ∨
+    (configure den s1 s2 go ge mm).chartopos = none := by
+  have hn : (newPwAligner den s1 s2).chartopos = some Gen.dna_to_matrix_pos ∨
+      (newPwAligner den s1 s2).chartopos = some Gen.prot_to_matrix_pos ∨
+      (newPwAligner den s1 s2).chartopos = none := by
+    simp only [newPwAligner]
+    split
+    · simp
+    · split <;> simp
+  unfold configure
+  cases go <;> cases ge <;> cases mm <;>
+    simpa only [Aligner.setGapOpenScore, Aligner.setGapExtendScore, Aligner.setScore] using hn
+
+private def idxOf (a : Aligner) (c : Byte) : Option Nat :=
+  match a.chartopos with
+  | none => none
+  | some tbl => lookup (toUpper c) tbl
+
+private theorem seqToIndices_eq (a : Aligner) (s : Seq) : seqToIndices a s = s.mapM (idxOf a) := rfl
+
+private theorem seqToIndices_no_gap (a : Aligner)
+    (ha : a.chartopos = some Gen.dna_to_matrix_pos ∨ a.chartopos = some Gen.prot_to_matrix_pos ∨ a.chartopos = none)
+    (s : Seq) (idx : List Nat) (h : seqToIndices a s = some idx) : GAP ∉ s := by
+  rw [seqToIndices_eq] at h
+  induction s generalizing idx with
+  | nil => simp
+  | cons c t ih =>
+    cases hc : idxOf a c with
+    | none => simp [List.mapM_cons, hc] at h
+    | some v =>
+      cases ht : List.mapM (idxOf a) t with
+      | none => simp [List.mapM_cons, hc, ht] at h
+      | some w =>
+        have iht := ih w ht
+        intro hm
+        rcases List.mem_cons.mp hm with e | hm
+        · subst e
+          unfold idxOf at hc
+          rcases ha with ha | ha | ha <;> rw [ha] at hc
+          · simp [gap_not_in_index_maps.1] at hc
+          · simp [gap_not_in_index_maps.2] at hc
+          · simp at hc
+        · exact iht hm
+
+private theorem mapM_length {α β} (f : α → Option β) : ∀ (l : List α) (r : List β), l.mapM f = some r → r.length = l.length := by
+  intro l
+  induction l with
+  | nil => intro r h; simp at h; subst h; rfl
+  | cons c t ih =>
+    intro r h
+    cases hc : f c with
+    | none => simp [List.mapM_cons, hc] at h
+    | some v =>
+      cases ht : List.mapM f t with
+      | none => simp [List.mapM_cons, hc, ht] at h
+      | some w =>
+        simp [List.mapM_cons, hc, ht] at h
+        subst h
+        simp [ih w ht]
+
+private theorem zip3_length_le {α β γ} : ∀ (a : List α) (b : List β) (c : List γ), (zip3 a b c).length ≤ a.length := by
+  intro a
+  induction a with
+  | nil => intro b c; simp [zip3]
+  | cons x a ih =>
+    intro b c
+    cases b with
+    | nil => simp [zip3]
+    | cons y b =>
+      cases c with
+      | nil => simp [zip3]
+      | cons z c => simp [zip3]; exact ih b c
+
+/-- a row scan either leaves the running maximum alone or moves it to a cell of that row -/
+private theorem rowScan_best (a : Aligner) (c1 : CI) (i : Nat) (hasUp : Bool) :
+    ∀ (l : List (CI × Int × NInf)) (j : Nat) (diag : Int) (leftv : Option Int) (bx : NInf) (best : Best),
+      (rowScan a c1 i hasUp j diag leftv bx best l).2 = best ∨
+      ((rowScan a c1 i hasUp j diag leftv bx best l).2.i = i ∧
+        j ≤ (rowScan a c1 i hasUp j diag leftv bx best l).2.j ∧
+        (rowScan a c1 i hasUp j diag leftv bx best l).2.j < j + l.length) := by
+  intro l
+  induction l with
+  | nil => intro j diag leftv bx best; left; rfl
+  | cons e t ih =>
+    intro j diag leftv bx best
+    obtain ⟨c2, upv, maxa⟩ := e
+    simp only [rowScan, List.length_cons]
+    generalize ho : cellStep a.gapopen a.gapextend (matchScore a c1 c2) diag
+      (if hasUp = true then some upv else none) leftv maxa bx = o
+    rcases ih (j + 1) upv (some o.val) o.bx
+      (if o.mscore > best.score then { score := o.mscore, i := i, j := j } else best) with h | h
+    · rw [h]
+      split
+      · right; exact ⟨rfl, Nat.le_refl _, by show j < j + (t.length + 1); omega⟩
+      · left; rfl
+    · right; exact ⟨h.1, by omega, by omega⟩
+
+private theorem fillRows_best (a : Aligner) (fixed : Bool) (x2 : List CI) :
+    ∀ (t : List (CI × Cell)) (i : Nat) (prev : List Int) (maxa : List NInf) (best : Best),
+      (fillRows a fixed x2 i prev maxa best t).2 = best ∨
+      (i ≤ (fillRows a fixed x2 i prev maxa best t).2.i ∧
+        (fillRows a fixed x2 i prev maxa best t).2.i < i + t.length ∧
+        (fillRows a fixed x2 i prev maxa best t).2.j < x2.length) := by
+  intro t
+  induction t with
+  | nil => intro i prev maxa best; left; rfl
+  | cons e t ih =>
+    intro i prev maxa best
+    obtain ⟨c1, cell0⟩ := e
+    simp only [fillRows, List.length_cons]
+    cases fixed with
+    | true =>
+      simp only [if_true]
+      have hr := rowScan_best a c1 i (decide (i > 0)) (zip3 x2 prev maxa) 0 0 none none best
+      have hl := zip3_length_le x2 prev maxa
+      generalize rowScan a c1 i (decide (i > 0)) 0 0 none none best (zip3 x2 prev maxa) = r at hr ⊢
+      rcases ih (i + 1) (List.map (fun x => x.val) (List.map (fun x => x.1) r.1))
+        (List.map (fun x => x.2) r.1) r.2 with h | h
+      · rw [h]
+        rcases hr with hr | hr
+        · left; exact hr
+        · right; exact ⟨by omega, by omega, by omega⟩
+      · right; exact ⟨by omega, by omega, h.2.2⟩
+    | false =>
+      simp only [Bool.false_eq_true, if_false]
+      have hr := rowScan_best a c1 i true (zip3 (x2.drop 1) (prev.drop 1) (maxa.drop 1)) 1 (prev.headD 0)
+        (some cell0.val) (some (cell0.val + a.gapopen + a.gapextend)) best
+      have hl := zip3_length_le (x2.drop 1) (prev.drop 1) (maxa.drop 1)
+      simp only [List.length_drop] at hl
+      generalize rowScan a c1 i true 1 (prev.headD 0) (some cell0.val)
+        (some (cell0.val + a.gapopen + a.gapextend)) best
+        (zip3 (x2.drop 1) (prev.drop 1) (maxa.drop 1)) = r at hr ⊢
+      rcases ih (i + 1) (List.map (fun x => x.val) (cell0 :: List.map (fun x => x.1) r.1))
+        (maxa.headD none :: List.map (fun x => x.2) r.1) r.2 with h | h
+      · rw [h]
+        rcases hr with hr | hr
+        · left; exact hr
+        · right; exact ⟨by omega, by omega, by omega⟩
+      · right; exact ⟨by omega, by omega, h.2.2⟩
+
+/-- the end cell reported by `fillMatrix_SW` lies inside the matrix -/
+theorem fill_best_in_range (a : Aligner) (fixed : Bool) (x1 x2 : List CI) (h1 : x1 ≠ []) (h2 : x2 ≠ []) :
+    (fill a fixed x1 x2).best.i < x1.length ∧ (fill a fixed x1 x2).best.j < x2.length := by
+  have l1 : 0 < x1.length := List.length_pos_iff.mpr h1
+  have l2 : 0 < x2.length := List.length_pos_iff.mpr h2
+  cases fixed with
+  | true =>
+    simp only [fill, if_true]
+    rcases fillRows_best a true x2 (x1.map fun c => (c, (⟨0, Dir.up⟩ : Cell))) 0 (x2.map fun _ => 0)
+      (x2.map fun _ => none) ⟨0, 0, 0⟩ with h | h
+    · rw [h]; exact ⟨l1, l2⟩
+    · simp only [List.length_map] at h; exact ⟨by omega, h.2.2⟩
+  | false =>
+    simp only [fill, Bool.false_eq_true, if_false]
+    cases x1 with
+    | nil => exact absurd rfl h1
+    | cons c1 t1 =>
+      cases x2 with
+      | nil => exact absurd rfl h2
+      | cons c2 t2 =>
+        simp only []
+        generalize hrow : firstRowOrig a c1 none (c2 :: t2) = row0
+        generalize hcol : firstColOrig a c2 none (c1 :: t1) = col0
+        rcases fillRows_best a false (c2 :: t2) (((c1 :: t1).zip col0).drop 1) 1 (row0.map (·.1.val))
+          (row0.map (·.2)) ⟨0, 0, 0⟩ with h | h
+        · rw [h]; exact ⟨l1, l2⟩
+        · have hz : (((c1 :: t1).zip col0).drop 1).length ≤ t1.length := by
+            simp only [List.length_drop, List.length_zip, List.length_cons]; omega
+          simp only [List.length_cons] at h ⊢
+          exact ⟨by omega, h.2.2⟩
+
+/-- **sw_align_valid** — whatever `NewPwAligner` + setters + `Alignment()` return without error for
+*any* two sequences and *any* scores (shipped or repaired code) is valid in the sense of C09. -/
+theorem sw_align_valid (fixed : Bool) (den : Int) (s1 s2 : Seq) (go ge : Option Int)
+    (mm : Option (Int × Int)) (r : Result)
+    (h : align (configure den s1 s2 go ge mm) fixed s1 s2 = Outcome.ok r) : Valid s1 s2 r := by
+  have ha := configure_chartopos den s1 s2 go ge mm
+  generalize configure den s1 s2 go ge mm = a at h ha
+  simp only [align] at h
+  split at h
+  · simp at h
+  · split at h
+    · rename_i i1 i2 hi1 hi2
+      split at h
+      · simp at h
+      · rename_i hne
+        simp only [Bool.or_eq_true, List.isEmpty_iff, not_or] at hne
+        split at h
+        · rename_i r' hbt
+          simp only [Outcome.ok.injEq] at h
+          subst h
+          have hl1 : (s1.zip i1).length = s1.length := by
+            simp [List.length_zip, mapM_length _ _ _ (seqToIndices_eq a s1 ▸ hi1)]
+          have hl2 : (s2.zip i2).length = s2.length := by
+            simp [List.length_zip, mapM_length _ _ _ (seqToIndices_eq a s2 ▸ hi2)]
+          have hb := fill_best_in_range a fixed (s1.zip i1) (s2.zip i2)
+            (by intro e; have := congrArg List.length e; rw [hl1] at this; exact hne.1 (List.length_eq_zero_iff.mp this))
+            (by intro e; have := congrArg List.length e; rw [hl2] at this; exact hne.2 (List.length_eq_zero_iff.mp this))
+          rw [hl1, hl2] at hb
+          exact sw_valid fixed _ _ _ _ s1 s2 _ _ _ r' (seqToIndices_no_gap a ha s1 i1 hi1)
+            (seqToIndices_no_gap a ha s2 i2 hi2) hb.1 hb.2 hbt
+        · simp at h
+    · simp at h
+
+/-- non-vacuity: the shipped code on `CGA` / `CATCA`, match 10, mismatch −1, gap −3 / −0.5 (×2)
+returns `CGA` / `C-A` with reported score 19 (the rows are worth 17: finding `maxa-init`) -/
+example :
+    align (configure 2 [67, 71, 65] [67, 65, 84, 67, 65] (some (-6)) (some (-1)) (some (20, -2))) false
+      [67, 71, 65] [67, 65, 84, 67, 65]
+    = Outcome.ok { score := 38, start1 := 0, start2 := 3, end1 := 2, end2 := 4, length := 3, nmatch := 2,
+                   nmismatch := 0, ngaps := 1, row1 := [67, 71, 65], row2 := [67, 45, 65] } := by
+  decide
 
 end Gv.Props.C09
